@@ -139,6 +139,46 @@ static void ctor(Stat& st) {
   }
 }
 
+// mixed-type operators: SafeInt<T1> op T2 and T2 op SafeInt<T1>.  The library converts the plain operand to T1 first, so an overflow may be
+// raised either because the operand or because the exact result is not representable in T1; a returned value must be the exact result.
+template <class T1, class T2>
+static void mixed(Stat& st) {
+  auto as = boundary<T1>(); auto bs = boundary<T2>();
+  I128 mn = std::numeric_limits<T1>::min(), mx = std::numeric_limits<T1>::max();
+  size_t sa = std::max<size_t>(1, as.size() / 24), sb = std::max<size_t>(1, bs.size() / 40);
+  for (size_t ia = 0; ia < as.size(); ia += sa) for (size_t ib = 0; ib < bs.size(); ib += (ib < 8 || ib + 8 >= bs.size()) ? 1 : sb) for (int op = 0; op < 3; ++op) for (int side = 0; side < 2; ++side) {
+    T1 a = as[ia]; T2 b = bs[ib];
+    I128 ea = (I128)a, eb = (I128)b;
+    I128 x = side == 0 ? ea : eb, y = side == 0 ? eb : ea;
+    I128 e = 0; bool wide = false;                        // |operands| < 2^64: only the product can exceed 127 bits (then it fits no T1)
+    if (op == 0) e = x + y; else if (op == 1) e = x - y; else wide = __builtin_mul_overflow(x, y, &e);
+    bool b_repr = eb >= mn && eb <= mx, r_repr = !wide && e >= mn && e <= mx;
+    bool threw = false; T1 r = 0;
+    try {
+      SafeInt<T1> sa1(a);
+      SafeInt<T1> res = side == 0 ? (op == 0 ? sa1 + b : op == 1 ? sa1 - b : sa1 * b) : (op == 0 ? b + sa1 : op == 1 ? b - sa1 : b * sa1);
+      r = val(res);
+    } catch (const OverflowError&) { threw = true; }
+    ++st.n; if (threw) ++st.ovf; else ++st.ok;
+    bool good = threw ? (!b_repr || !r_repr) : (r_repr && (I128)r == e);
+    if (!good)
+      st.add_bad(std::string("mixed:") + (threw ? "representable-but-raised" : (r_repr ? "wrong-value" : "overflow-not-raised")),
+                 std::string(side == 0 ? "SafeInt<" : "") + (side == 0 ? tname<T1>() : tname<T2>()) + (side == 0 ? ">(" : " ") + s128(side == 0 ? ea : eb) + (side == 0 ? ") " : " ") + "+-*"[op] + " " +
+                     (side == 1 ? "SafeInt<" : "") + (side == 1 ? tname<T1>() : tname<T2>()) + (side == 1 ? ">(" : " ") + s128(side == 1 ? ea : eb) + (side == 1 ? ")" : "") + (threw ? ": raised overflow" : ": returned " + s128(r)) + ", exact " + (wide ? std::string("beyond 127 bits") : s128(e)));
+  }
+}
+
+template <class T1>
+static void mixed_with(int ti, Stat& st) {
+  switch (ti) {
+    case 0: mixed<T1, signed char>(st); break; case 1: mixed<T1, unsigned char>(st); break;
+    case 2: mixed<T1, short>(st); break; case 3: mixed<T1, unsigned short>(st); break;
+    case 4: mixed<T1, int>(st); break; case 5: mixed<T1, unsigned>(st); break;
+    case 6: mixed<T1, long>(st); break; case 7: mixed<T1, unsigned long>(st); break;
+    case 8: mixed<T1, long long>(st); break; case 9: mixed<T1, unsigned long long>(st); break;
+  }
+}
+
 template <class U>
 static void ctor_from(int ti, Stat& st) {
   switch (ti) {
@@ -189,6 +229,16 @@ int main(int argc, char** argv) {
         case 8: ctor_from<long long>(ti, st); break; case 9: ctor_from<unsigned long long>(ti, st); break;
       }
       desc = std::string("ctor ") + TNAMES[ui] + "->" + TNAMES[ti];
+    } else if (mode == "mixed") {
+      int t1 = c % 10, t2 = (int)(c / 10) % 10;
+      switch (t1) {
+        case 0: mixed_with<signed char>(t2, st); break; case 1: mixed_with<unsigned char>(t2, st); break;
+        case 2: mixed_with<short>(t2, st); break; case 3: mixed_with<unsigned short>(t2, st); break;
+        case 4: mixed_with<int>(t2, st); break; case 5: mixed_with<unsigned>(t2, st); break;
+        case 6: mixed_with<long>(t2, st); break; case 7: mixed_with<unsigned long>(t2, st); break;
+        case 8: mixed_with<long long>(t2, st); break; case 9: mixed_with<unsigned long long>(t2, st); break;
+      }
+      desc = std::string("mixed SafeInt<") + TNAMES[t1] + "> with " + TNAMES[t2];
     }
     vf::J j; j.i("case", c).s("mode", mode).s("desc", desc).i("n", st.n).i("ok", st.ok).i("ovf", st.ovf).i("bad", st.bad);
     std::string cl = "{"; bool f = true;
